@@ -70,9 +70,9 @@ func (C03) OnCall(e *sim.Env, c *sim.Call) {
 		viol("bad-signature/"+kind, "signature does not verify over the canonical sign bytes of the submitted (chain id, msg, fee, memo, entropy)")
 	}
 	cp := sim.ParamsOf(pre)
-	need := cp.RequiredFee(c.Meta.MsgType)
-	if c.Meta.Fee < need {
-		viol("fee-too-low/"+kind, fmt.Sprintf("fee %d below required %d", c.Meta.Fee, need))
+	need := cp.RequiredFeeBig(c.Meta.MsgType)
+	if tx.Fee.AmountOf(sim.Denom).BigInt().Cmp(need) < 0 {
+		viol("fee-too-low/"+kind, fmt.Sprintf("fee %v below required %v", tx.Fee.AmountOf(sim.Denom), need))
 	}
 	if e.Idx.Has(c.Meta.Hash) && !txInCurrentBlockOnly(e, c) {
 		viol("replay", "transaction hash is already in the chain's tx index")
